@@ -37,6 +37,8 @@ TRUSTED = ['hand-written model coq/Model/Summary.v tied to biom/table.py, biom/u
            'text formatting (%d, %1.3f, locale grouping, str(table), pandas to_csv) is not modelled: reports are parsed back and '
            'compared at printed precision; std. dev. is the square root (taken by the harness) of the modelled variance',
            'pandas column type inference (ints shown as floats in a padded column) is outside the model: cells compared as numbers']
+from . import regen as _regen
+regenerate = _regen.hook(TRUSTED, ['helpers'])   # py2v: regenerate coq/Gen/* from the source first
 ASSUMPTIONS = ['matrix values are multiples of 1/64 with sums below 2^53 (sums exact in binary64 and in Z)',
                'ids and metadata keys contain no tab, newline, "; " or ": "']
 
